@@ -657,15 +657,54 @@ def new_stats():
             "rw_decisions": 0, "look_decisions": 0, "refval_decisions": 0}
 
 
+def _run_task(task):
+    """one batch, executed in a worker process (or inline): -> what `run` merges"""
+    ctx, cases, rngs, fixed = task
+    out = core.Outcome()
+    stats = new_stats()
+    samples = []
+    run_batch(ctx, cases, out, stats, samples, rngs=rngs, fixed=fixed)
+    nontrivial = sum(1 for c in cases if c.expected and any("ok" in e for e in c.expected))
+    return out.failures, out.disagreements, stats, samples, nontrivial
+
+
+def n_jobs():
+    try:
+        j = int(os.environ.get("VERIF_C15_JOBS") or 0)
+    except ValueError:
+        j = 0
+    if j <= 0:
+        j = max(1, min(4, (os.cpu_count() or 2) // 2))
+    return j
+
+
+def run_tasks(tasks):
+    """the batches are independent of one another (every batch closes all models first, has its own scratch
+    directory, subprocess and driver call), so they run in forked worker processes; the results are merged in
+    task order, which makes the outcome independent of the number of workers"""
+    jobs = min(n_jobs(), len(tasks))
+    if jobs <= 1:
+        return [_run_task(t) for t in tasks]
+    import multiprocessing
+    close_all()
+    with multiprocessing.get_context("fork").Pool(jobs) as pool:
+        return pool.map(_run_task, tasks, chunksize=1)
+
+
+def _chunks(seq, n):
+    return [seq[k:k + n] for k in range(0, len(seq), n)]
+
+
 def run(ctx, out):
     out.level = "translation_validation"
     stats = new_stats()
     samples = []
     features = {}
     profiles = {}
-    n_models = int(os.environ.get("VERIF_C15_MODELS") or 0) or ctx.n(110, 1500)
-    batch = 35
+    n_models = int(os.environ.get("VERIF_C15_MODELS") or 0) or ctx.n(80, 1500)
+    batch = 12
     idx = 0
+    tasks = []          # (phase, (ctx, cases, rngs, fixed))
     # corpus first: witnesses of the known findings and hand-written regression models
     corpus = load_corpus()
     ccases, cfixed = [], []
@@ -676,7 +715,7 @@ def run(ctx, out):
         cfixed.append(payload["queries"])
         idx += 1
     if ccases:
-        run_batch(ctx, ccases, out, stats, samples, fixed=cfixed)
+        tasks.append(("corpus", (ctx, ccases, None, cfixed)))
     # the structured family: one model per reference value kind, then pairs (the same on every run;
     # only the query arguments depend on the seed)
     family = V.motif_family()
@@ -688,25 +727,19 @@ def run(ctx, out):
         mcases.append(Case(idx, d, "motif/" + label))
         mrngs.append(ctx.rng("motif", label))
         idx += 1
-    before_m = stats["compared"]
-    for k in range(0, len(mcases), batch):
-        run_batch(ctx, mcases[k:k + batch], out, stats, samples, rngs=mrngs[k:k + batch])
-    motif_compared = stats["compared"] - before_m
+    for cs, rs in zip(_chunks(mcases, batch), _chunks(mrngs, batch)):
+        tasks.append(("motif", (ctx, cs, rs, None)))
     # the scoping family: every template on every run, for a rotating choice of name kinds (all of them in the
     # thorough tier), plus a seed-dependent tail of random scope expressions
-    before_s, raises_s = stats["compared"], stats["model_raises"]
     scope_formulas = 0
     if not os.environ.get("VERIF_C15_NO_SCOPE"):
         fam = S.family(ctx.rng("scope"), n_random=ctx.n(34, 510), per_template=ctx.n(3, None), rotation=ctx.seed)
         for label, d, qs in fam:
             d = dict(d, name="S%d" % idx)
             scope_formulas += len(qs)
-            run_batch(ctx, [Case(idx, d, "scope/" + label)], out, stats, samples, fixed=[qs])
+            tasks.append(("scope", (ctx, [Case(idx, d, "scope/" + label)], None, [qs])))
             idx += 1
-    scope_compared = stats["compared"] - before_s
-    scope_raises = stats["model_raises"] - raises_s
     programs = set()
-    nontrivial = 0
     skipped_trigger = 0
     done = 0
     while done < n_models:
@@ -726,10 +759,25 @@ def run(ctx, out):
             cases.append(Case(idx - 1, desc, "generated"))
             rngs.append(ctx.rng("queries", done))
             programs.add(json.dumps(desc, sort_keys=True))
-        before = stats["compared"]
-        run_batch(ctx, cases, out, stats, samples, rngs=rngs)
-        nontrivial += sum(1 for c in cases if c.expected and any("ok" in e for e in c.expected))
-        del before
+        if cases:
+            tasks.append(("generated", (ctx, cases, rngs, None)))
+    results = run_tasks([t for _ph, t in tasks])
+    nontrivial = 0
+    per_phase = {}
+    for (phase, _t), (fails, disagreements, st, smp, nt) in zip(tasks, results):
+        out.failures.extend(fails)
+        out.disagreements.extend(disagreements)
+        for k, v in st.items():
+            stats[k] = stats.get(k, 0) + v
+        ph = per_phase.setdefault(phase, {"compared": 0, "model_raises": 0})
+        ph["compared"] += st.get("compared", 0)
+        ph["model_raises"] += st.get("model_raises", 0)
+        for x in smp:
+            if len(samples) < 6:
+                samples.append(x)
+        if phase == "generated":
+            nontrivial += nt
+    motif_compared = per_phase.get("motif", {}).get("compared", 0)
     out.coverage.update({
         "evaluations": stats["compared"],
         "distinct_nontrivial": nontrivial,
@@ -741,9 +789,11 @@ def run(ctx, out):
         "corpus_cases": len(corpus),
         "motif_models": len(mcases),
         "motif_values_compared": motif_compared,
-        "scope_family": {"formulas": scope_formulas, "values_compared": scope_compared,
-                         "model_raises_not_compared": scope_raises, "templates": len(S.TEMPLATES),
-                         "contexts": len(S.CONTEXTS), "name_kinds": S.N_KINDS},
+        "scope_family": {"formulas": scope_formulas,
+                         "values_compared": per_phase.get("scope", {}).get("compared", 0),
+                         "model_raises_not_compared": per_phase.get("scope", {}).get("model_raises", 0),
+                         "templates": len(S.TEMPLATES), "contexts": len(S.CONTEXTS), "name_kinds": S.N_KINDS},
+        "worker_processes": min(n_jobs(), len(tasks)),
         "value_kinds": [k.id for k in V.KINDS],
         "input_distribution": {"profiles": profiles, "features": features, "counters": stats,
                                "models_skipped_for_known_trigger": skipped_trigger},
